@@ -13,6 +13,7 @@ import (
 	"fmt"
 	"os"
 	"strings"
+	"time"
 
 	"wvh/hlib"
 )
@@ -32,15 +33,25 @@ func main() {
 		os.Exit(2)
 	}
 	defer tc.cleanup()
+	defer stdCleanup()
 
+	t0 := time.Now()
+	lap := func(what string) {
+		r.Extra("seconds:"+what, time.Since(t0).Seconds())
+		t0 = time.Now()
+	}
+	lap("toolchain")
 	if want("A") {
 		sectionA(r, tc)
+		lap("A")
 	}
 	if want("B") || want("C") {
 		sectionBC(r, tc, want("B"), want("C"))
+		lap("BC")
 	}
 	if want("D") {
 		sectionD(r)
+		lap("D")
 	}
 	r.Finish("A: every coroutine of std/ and of generated packages (non-trivial = has a suspension point and a local; distinct by abstract body). " +
 		"B: every read method x byte strings x all compositions of the length; skip/write_u8 likewise (distinct by method+split). " +
